@@ -18,13 +18,19 @@ LEVEL = "model_checking"
 RULE = ("state = (net object, position in the step list); per net (gas tree, water mesh) ALL profile vectors of length 3 "
         "(quick) / 4 (thorough) over the letter alphabet {low, mid, high demand, infeasible demand, feeder switched off} x "
         "step lists {all steps forward, reversed, single step, subsets, rotated} x continue_on_divergence {False, True} x "
+        "(water mesh, additionally) ALL vectors over {mid, branch A switched off, branch B switched off} x solver option "
+        "only_update_hydraulic_matrix {absent, True} x "
         "1-2 ConstControl objects; every logged step is compared with a stand-alone pipeflow on a freshly built net carrying "
         "that step's values. transitions = time steps executed by run_timeseries.")
 ASSUMPTIONS = ["pandapower's ConstControl / OutputWriter / run_time_step loop are trusted; pandapipes' registration of pipeflow "
                "as run function and of PipeflowNotConverged as recognised error is under test",
                "a failed step is recognised by the OutputWriter's powerflow_failed flag; its logged values must not be "
                "results of another step"]
-LETTERS = {"low": (0.5, True), "mid": (1.0, True), "high": (1.6, True), "infeasible": (400.0, True), "off": (1.0, False)}
+LETTERS = {"low": (0.5, True), "mid": (1.0, True), "high": (1.6, True), "infeasible": (400.0, True), "off": (1.0, False),
+           # topology letters (water mesh only): one of the two branches below junction 1 is switched off
+           "cutA": (1.0, True, (False, True)), "cutB": (1.3, True, (True, False))}
+TOPO_LETTERS = ["mid", "cutA", "cutB"]
+MAIN_LETTERS = ["low", "mid", "high", "infeasible", "off"]
 
 
 def warmup():
@@ -68,30 +74,47 @@ def cases(tier):
     n = 3 if tier == "quick" else 4
     out = []
     for kind in ("gas", "water"):
-        for vec in itertools.product(LETTERS, repeat=n):
+        for vec in itertools.product(MAIN_LETTERS, repeat=n):
             for si, steps in enumerate(step_lists(n, tier)):
                 for cod in (False, True):
                     if tier == "quick" and si >= 3 and not any(l in ("infeasible", "off") for l in vec):
                         continue
                     out.append({"net": kind, "profile": list(vec), "steps": steps, "cod": cod, "two_controllers": (si % 2 == 1)})
+    # topology changes between the steps, with and without the matrix-update option of the solver
+    for vec in itertools.product(TOPO_LETTERS, repeat=n):
+        if not any(l != "mid" for l in vec):
+            continue
+        for si, steps in enumerate(step_lists(n, tier)):
+            for opts in ({}, {"only_update_hydraulic_matrix": True}):
+                out.append({"net": "water", "profile": list(vec), "steps": steps, "cod": True, "two_controllers": (si % 2 == 1),
+                            "topo": True, "opts": opts})
     return out
 
 
-def standalone(kind, base, letter, second):
+def standalone(kind, base, letter, second, opts=None):
     net, _ = make_net(kind)
-    f, on = LETTERS[letter]
+    f, on = LETTERS[letter][:2]
     net.sink.loc[net.sink.index[0], "mdot_kg_per_s"] = base * f
     net.sink.loc[net.sink.index[1], "mdot_kg_per_s"] = second
     net.ext_grid["in_service"] = on
+    pa, pb = pipes_state(letter)
+    net.pipe.loc[net.pipe.index[1], "in_service"] = pa
+    net.pipe.loc[net.pipe.index[2], "in_service"] = pb
     try:
-        pp.pipeflow(net, use_numba=False)
+        pp.pipeflow(net, use_numba=False, **(opts or {}))
         return True, net
     except PipeflowNotConverged:
         return False, net
 
 
+def pipes_state(letter):
+    v = LETTERS[letter]
+    return v[2] if len(v) > 2 else (True, True)
+
+
 def run_case(case):
     kind = case["net"]
+    opts = case.get("opts") or {}
     net, base = make_net(kind)
     prof = case["profile"]
     n = len(prof)
@@ -105,20 +128,26 @@ def run_case(case):
         ConstControl(net, element="sink", variable="mdot_kg_per_s", element_index=list(net.sink.index), data_source=ds,
                      profile_name=["s0", "s1"])
     ConstControl(net, element="ext_grid", variable="in_service", element_index=[net.ext_grid.index[0]], data_source=ds_eg, profile_name=["eg"])
+    if case.get("topo"):
+        ds_p = DFData(pd.DataFrame({"pa": [pipes_state(l)[0] for l in prof], "pb": [pipes_state(l)[1] for l in prof]}))
+        ConstControl(net, element="pipe", variable="in_service", element_index=[net.pipe.index[1], net.pipe.index[2]], data_source=ds_p,
+                     profile_name=["pa", "pb"])
     logvars = [("res_junction", "p_bar"), ("res_pipe", "mdot_from_kg_per_s"), ("res_ext_grid", "mdot_kg_per_s"), ("res_sink", "mdot_kg_per_s")]
     ow = OutputWriter(net, case["steps"], output_path=None, log_variables=logvars)
     steps = case["steps"]
     vs = []
     tag = {"net": kind, "cod": case["cod"]}
-    where = "net=%s profile=%s steps=%s continue_on_divergence=%s" % (kind, prof, steps, case["cod"])
-    refs = {t: standalone(kind, base, prof[t], second[t]) for t in set(steps)}
+    if opts:
+        tag["opts"] = ",".join(sorted(opts))
+    where = "net=%s profile=%s steps=%s continue_on_divergence=%s%s" % (kind, prof, steps, case["cod"], (" options=%s" % opts) if opts else "")
+    refs = {t: standalone(kind, base, prof[t], second[t], opts) for t in set(steps)}
     first_fail = next((i for i, t in enumerate(steps) if not refs[t][0]), None)
     try:
-        run_timeseries(net, time_steps=steps, continue_on_divergence=case["cod"], verbose=False, use_numba=False)
+        run_timeseries(net, time_steps=steps, continue_on_divergence=case["cod"], verbose=False, use_numba=False, **opts)
         raised = None
     except Exception as e:
         raised = e
-    states = [core.jhash([kind, prof, steps[:i + 1], case["cod"]]) for i in range(len(steps))]
+    states = [core.jhash([kind, prof, steps[:i + 1], case["cod"], opts]) for i in range(len(steps))]
     if first_fail is not None and not case["cod"]:
         if raised is None:
             vs.append(viol("divergence_not_raised", "%s: step %s cannot be solved but the time series did not raise" % (where, steps[first_fail]), **tag))
@@ -162,4 +191,4 @@ def run_case(case):
                                var=key, after_failure=first_fail is not None and steps.index(t) > first_fail, **tag))
                 break
     return {"status": "ok", "violations": vs, "states": states, "transitions": len(steps), "traces": 1,
-            "nontrivial": len(checked) > 0, "sig": core.jhash([kind, prof, steps, case["cod"]])}
+            "nontrivial": len(checked) > 0, "sig": core.jhash([kind, prof, steps, case["cod"], opts])}
